@@ -103,8 +103,9 @@ def state(mu, a, e, f0):
 
 
 class Case:
-    def __init__(self, rebound):
+    def __init__(self, rebound, all_G=True):
         self.rebound = rebound
+        self.all_G = all_G
         cl = rebound.clibrebound
         cl.reb_whfast_kepler_solver.restype = None
         self.cl = cl
@@ -118,11 +119,11 @@ class Case:
         rb.drain_messages(sim)
         return [P[1].x, P[1].y, P[1].z, P[1].vx, P[1].vy, P[1].vz]
 
-    def stepper(self, integ, mu, s, dt, m2):
-        """one step of an integrator on star + one body; returns the relative state afterwards"""
+    def stepper(self, integ, mu, s, dt, m2, G=1.0):
+        """one step of an integrator on star + one body; returns the relative state afterwards
+        (G is a power of two, so that G * (mu / G) is mu exactly and the same reference applies)"""
         rebound = self.rebound
         sim = rebound.Simulation()
-        G = 1.0
         M1 = mu / G - m2
         sim.G = G
         sim.add(m=M1, x=0.3, y=-0.1, z=0.2, vx=0.01, vy=-0.02, vz=0.005)
@@ -141,10 +142,23 @@ class Case:
         # the relative state that the integrator actually starts from (adding the offsets rounds)
         a, b = sim.particles[0], sim.particles[1]
         s_in = [b.x - a.x, b.y - a.y, b.z - a.z, b.vx - a.vx, b.vy - a.vy, b.vz - a.vz]
+        # the integrator is handed inertial coordinates: their size bounds what a relative coordinate can resolve
+        self.inertial_mag = [max(abs(u), abs(v)) for u, v in ((a.x, b.x), (a.y, b.y), (a.z, b.z), (a.vx, b.vx), (a.vy, b.vy), (a.vz, b.vz))]
         sim.step()
         sim.synchronize()
         a, b = sim.particles[0], sim.particles[1]
         return s_in, [b.x - a.x, b.y - a.y, b.z - a.z, b.vx - a.vx, b.vy - a.vy, b.vz - a.vz], sim.t
+
+    def inertial_conditioning(self, mu, s_in, dt, ref, D):
+        """D plus the effect of one ulp of the *inertial* coordinates (the star sits at 0.3, a pericentre separation may be 1e-6:
+        a relative coordinate formed from them cannot be better than that, whatever the integrator does)"""
+        D = [mp.mpf(d) for d in D]
+        for k in range(6):
+            t = list(s_in)
+            t[k] = s_in[k] + (math.nextafter(self.inertial_mag[k], math.inf) - self.inertial_mag[k])
+            rr = kepler_exact(mu, t[:3], t[3:], dt)
+            D = [d + abs(x - y) for d, x, y in zip(D, rr, ref)]
+        return [float(d) for d in D]
 
     def reference(self, mu, s, dt):
         ref, terms = kepler_exact(mu, s[:3], s[3:], dt, terms=True)
@@ -206,14 +220,27 @@ class Case:
             if len(integ) == 3:
                 continue
             for m2 in ((0.0, 1e-3 * mu) if integ in (("whfast", "jacobi"), ("whfast", "whds"), ("saba", "1")) else (0.0,)):
-                s_in, out, t = self.stepper(integ, mu, s, dt, m2)
-                if s_in != s:
-                    r2, D2 = self.reference(mu, s_in, dt)
-                else:
-                    r2, D2 = ref, D
-                self.judge(out, r2, D2, "one step of %s/%s (m2=%g)" % (integ[0], integ[1], m2), "step:%s/%s:%s:%s" % (integ[0], integ[1], cls, "backward" if sign < 0 else "forward"), tag, V, K=8192.0, line=(s_in, dt, dt, e, a, mu))
-                if abs(t - dt) > 4 * U * abs(dt):
-                    V.append(("step:time:%s" % integ[0], "t=%r after one step of dt=%r [%s]" % (t, dt, tag)))
+                refs = {}
+                for G in ((1.0, 4.0, 0.25) if self.all_G else (1.0, 4.0 if sign > 0 else 0.25)):
+                    s_in, out, t = self.stepper(integ, mu, s, dt, m2, G)
+                    key = tuple(s_in)
+                    if s_in == s:
+                        r2, D2 = ref, D
+                    elif key in refs:
+                        r2, D2 = refs[key]
+                    else:
+                        r2, D2 = refs[key] = self.reference(mu, s_in, dt)
+                    gtxt = "" if G == 1.0 else ", G=%g with the star's mass GM/G" % G
+                    Vt = []
+                    args = ("one step of %s/%s (m2=%g%s)" % (integ[0], integ[1], m2, gtxt), "step:%s/%s:%s:%s" % (integ[0], integ[1], cls, "backward" if sign < 0 else "forward"), tag)
+                    self.judge(out, r2, D2, *args, Vt, K=8192.0, line=(s_in, dt, dt, e, a, mu))
+                    if Vt and not Vt[0][0].endswith(":nan"):
+                        # judged again with the conditioning of the inertial coordinates the integrator was given (computed only when needed)
+                        Vt = []
+                        self.judge(out, r2, self.inertial_conditioning(mu, s_in, dt, r2, D2), *args, Vt, K=8192.0, line=(s_in, dt, dt, e, a, mu))
+                    V.extend(Vt)
+                    if abs(t - dt) > 4 * U * abs(dt):
+                        V.append(("step:time:%s" % integ[0], "t=%r after one step of dt=%r [%s]" % (t, dt, tag)))
         # two steps with an output in between, in the deferred-synchronisation modes (the body must still be on the exact orbit)
         for integ in [x for x in steppers if len(x) == 3]:
             name, coord, mode = integ
@@ -281,7 +308,7 @@ def run(ctx):
                             tasks.append((e, a, mu, f0, dtP, sign, st))
     tasks = ctx.shuffled(tasks)
     ctx.note("cases: %d" % len(tasks))
-    res = pool.run_tasks(Case(rebound), tasks, timeout=120, chunk=16, progress=lambda d, n: ctx.note("cases %d/%d" % (d, n)))
+    res = pool.run_tasks(Case(rebound, not quick), tasks, timeout=120, chunk=16, progress=lambda d, n: ctx.note("cases %d/%d" % (d, n)))
     nsteps = 0
     worst = 0.0
     for t, r in zip(tasks, res):
@@ -302,7 +329,7 @@ def run(ctx):
         "observed_max_error_in_units_of_the_1ulp_input_effect": worst,
         "evaluations": len(tasks) + nsteps, "distinct_nontrivial": len(tasks),
         "rule": "e in {0,1e-12,1e-4,0.1,0.5,0.9,0.99,1-1e-6,1+1e-6,1.01,1.5,10,1e3} x a{1e-6,1,1e6} x GM{1e-3,1,1e3} (quick: every third point of the a x GM plane) x 12 phases (peri/apocentre and +-1e-8 around them) x "
-                "|dt|/P in {1e-8,1e-4,9e-3,1.1e-2,0.1,0.5,1,1.5,10,1e3} x sign through reb_whfast_kepler_solver; one step of WHFast x 4 coordinate systems, SABA1, MERCURIUS, TRACE on a sub-lattice",
+                "|dt|/P in {1e-8,1e-4,9e-3,1.1e-2,0.1,0.5,1,1.5,10,1e3} x sign through reb_whfast_kepler_solver; one step of WHFast x 4 coordinate systems, SABA1, MERCURIUS, TRACE on a sub-lattice, each with G=1 and G in {4, 1/4} (star mass GM/G; quick: one of the two by the sign of dt)",
         "samples": [list(tasks[0][:6]), list(tasks[-1][:6])], "integrator_steps": nsteps, "exhaustive": True,
     }
     return ctx.finish(LEVEL, cov, assumptions=[
